@@ -507,6 +507,111 @@ def d1_leg_direction(F, r):
         raise AnchorError(f"only {n} rank-resolved leg queries")
 
 
+# ---- R1 relaxed goals never escape ---------------------------------------------------------------
+IC_ADT = H + "context::InsertionContext"
+PROBLEM_AGG = "vrp_core::models::domain::Problem#Problem"
+HANDOVER_TM = ("rosomaxa::hyper::HeuristicSearchOperator::search", "vrp_core::solver::search::local::LocalOperator::explore",
+               "vrp_core::solver::search::recreate::Recreate::run", "vrp_core::solver::search::ruin::Ruin::run",
+               "rosomaxa::evolution::HeuristicSolutionProcessing::post_process")
+REPAIR = "vrp_core::construction::probing::repair_solution::repair_solution_from_unknown"
+
+
+def _is_original_problem(fn, op):
+    roots = mir.trace(fn, op)
+    if not roots:
+        return False
+    for k, v, p in roots:
+        if k == "arg" and "problem" in p:
+            continue
+        return False
+    return True
+
+
+def r1_relaxed_goal(F, r):
+    variant_fns = set()
+    for fid, fn in F.fns.items():
+        if not fid.lstrip("<").startswith("vrp_core::solver"):
+            continue
+        for bi, si, s in mir.stmts(fn):
+            if s["r"]["k"] == "agg" and s["r"].get("n") == PROBLEM_AGG:
+                variant_fns.add(F.root_of(fid))
+    if len(variant_fns) < 3:
+        raise AnchorError(f"only {len(variant_fns)} functions build a Problem variant in the solver")
+    n = 0
+    for tm in HANDOVER_TM:
+        for m in F.trait_impl_methods(tm):
+            if m == tm or not m.lstrip("<").startswith("vrp_core::"):
+                continue
+            fn = F.fns[m]
+            mod = fn["module"]
+            par = cg.reach(F, [m], stop=lambda g: g in F.fns and F.fns[F.root_of(g)]["module"] != mod if g in F.fns else True, cha=False)
+            hit = {F.root_of(g) for g in par} & variant_fns
+            if not hit:
+                continue
+            n += 1
+            name = util.short_fn(m)
+            # restoring stores in H
+            O = []
+            for bi, si, s in mir.stmts(fn):
+                pf = mir.proj_fields(s["d"])
+                if pf and pf[-1] == (IC_ADT, "problem") and s["r"].get("o") and _is_original_problem(fn, s["r"]["o"][0]):
+                    O.append(bi)
+            if O and not (set(mir.ret_blocks(fn)) & mir.reach(fn, [0], blocked=O)):
+                r.ok(name, f"works on a goal variant ({', '.join(util.short_fn(h) for h in sorted(hit))}) and re-assigns the original problem on every path before returning")
+                continue
+            # sanitiser pattern: every individual leaves through repair_solution_from_unknown built from the original problem
+            fam = F.family(m)
+            adds = [(g, t) for g in fam for _, t in mir.calls(F.fns[g]) if t["callee"].endswith("RefinementContext::add_solution")]
+            rec = [i for i in F.fns if F.fns[i]["module"] == mod and F.fns[i]["kind"] != "Closure" and REPAIR in cg.callees(F, i, cha=False)]
+            ok = bool(adds) and bool(rec)
+            why = ""
+            for g, t in adds:
+                roots = mir.trace(F.fns[g], t["args"][1])
+                if not roots or not all(k == "call" and (F.fns[g]["bbs"][v]["t"]["res"] or F.fns[g]["bbs"][v]["t"]["callee"]) in rec for k, v, p in roots):
+                    ok = False
+                    why = "an individual is added to the population without passing the recovery (repair) step"
+            for rf in rec:
+                rfn = F.fns[rf]
+                # the factory closure given to repair builds the context from a parameter's problem (the original), not from the relaxed context
+                good = False
+                for _, t in mir.calls(rfn):
+                    if (t["res"] or t["callee"]) == REPAIR:
+                        for k, v, p in mir.trace(rfn, t["args"][1]):
+                            if k == "agg":
+                                rv = rfn["bbs"][v[0]]["s"][v[1]]["r"]
+                                cfn = F.fns.get(rv.get("n"))
+                                if cfn:
+                                    ups = [u[0] for u in cfn.get("upvars", [])]
+                                    relaxed_arg = t["args"][0]
+                                    relaxed_names = {rfn["names"].get(str(vv)) for kk, vv, pp in mir.trace(rfn, relaxed_arg) if kk in ("arg", "local")}
+                                    if ups and not (set(ups) & relaxed_names):
+                                        good = True
+                if not good:
+                    ok = False
+                    why = why or "the repaired context is built from the relaxed context's own problem"
+            # the returned value: ranked()/deep_copy of the parent, never the relaxed context itself
+            roots = mir.trace(fn, {"l": 0, "p": []})
+            calls_ = {fn["bbs"][v]["t"]["callee"].split("::")[-1] for k, v, p in roots if k == "call"}
+            if not calls_ or not calls_ <= {"unwrap_or_else", "unwrap_or", "deep_copy", "next", "unwrap"}:
+                ok = False
+                why = why or f"the operator returns a value produced by {sorted(calls_)} (not the recovered population's best / a copy of the parent)"
+            if ok:
+                r.ok(name, "searches under a relaxed goal; every individual is recovered by repair_solution_from_unknown from the original problem; returns the recovered best or a copy of the parent")
+            else:
+                r.fail(name, f"a solution built under a relaxed / amended goal can be handed over: {why or 'the original problem is not re-assigned on every path'}", F.loc(m))
+    if n < 3:
+        raise AnchorError(f"only {n} hand-over functions work on goal variants")
+    # with_constraints: who may build constraint variants
+    wc = "vrp_core::models::goal::GoalContext::with_constraints"
+    for cf, kind, bi, t in cg.callers(F, wc):
+        mod = F.fns[F.root_of(cf)]["module"]
+        inst = f"with_constraints<-{util.short_fn(F.root_of(cf))}"
+        if mod in ("vrp_core::solver::search::infeasible_search", "vrp_core::solver::search::redistribute_search"):
+            r.ok(inst, "confirmed variant builder (covered by the escape analysis above)")
+        else:
+            r.fail(inst, f"module `{mod}` builds a goal with a replaced constraint set", F.loc(cf, t["ln"] if t else None))
+
+
 # ---- A1 goal assembly ---------------------------------------------------------------------------
 GR = "vrp_pragmatic::format::problem::goal_reader::"
 PROPS = "vrp_pragmatic::format::problem::ProblemProperties"
@@ -659,7 +764,7 @@ def run(ctx):
         "complete constraint evaluation on activity and route level (G1-G3), only confirmed modules put activities into tours (G4), "
         "constraints read cache/dimension slots with the type they are written with and every slot they read has a writer (K1,K2), every "
         "job/route removal is guarded by the locked set (L1). Cache-coherence clauses the constraints rely on are decided under C05.")
-    ctx.not_decided = ("that each constraint's arithmetic is right (feasible(P,S) itself), relaxed-goal escape (R1/R2) is not armed in this revision; schedule/termination independence beyond C07/C15 clauses.")
+    ctx.not_decided = ("that each constraint's arithmetic is right (feasible(P,S) itself),  schedule/termination independence beyond C07/C15 clauses.")
     ctx.assumptions += ["user relations (locks) and initial solutions are consistent with the constraints (documented precondition)",
                         "CHA call graph; closures may-run at construction site",
                         "same-named generic parameters inside one module denote the same binding (slot type comparison)"]
@@ -667,6 +772,7 @@ def run(ctx):
     ctx.run("C01-G2", "route-level gate: public evaluator entries reach the insertion analysis only through the None edge of goal.evaluate(route move)", g2_route_gate, floor=2)
     ctx.run("C01-G3", "InsertionSuccess is built only from an evaluated feasible position (make_success callers gated; copies only)", g3_success_construction, floor=12)
     ctx.run("C01-G4", "only confirmed modules insert activities into tours / obtain mutable activity access", g4_who_may_insert, floor=12)
+    ctx.run("C01-R1", "relaxed / amended goals never escape: original problem re-assigned on every path, or every individual recovered through repair", r1_relaxed_goal, floor=5)
     ctx.run("C01-A1", "goal assembly: every hard constraint is pushed into the goal's feature list under its own input-derived property", a1_goal_assembly, floor=20)
     ctx.run("C01-D1", "routing legs are queried in travel direction (prev -> target -> next)", d1_leg_direction, floor=4)
     ctx.run("C01-K1", "slot type agreement: every reader of a TypeId-keyed slot uses a type some writer stores", k1_slot_types, floor=40)
